@@ -2,6 +2,7 @@
 receiver-type inference and call resolution.  Pure ``ast``.
 """
 import ast
+import copy
 import builtins
 import json
 import os
@@ -293,6 +294,61 @@ def _normalise_temporaries(tree):
     ast.fix_missing_locations(tree)
 
 
+def _stores_all_before(fn, y, copy_stmt):
+    """Every binding of local ``y`` in ``fn`` is in a statement that comes
+    before ``copy_stmt`` in source order, and no loop contains both such a
+    binding and ``copy_stmt``: once the copy is made, ``y`` keeps its value
+    (only a loop can lead back to an earlier statement)."""
+    order = {}
+    loops_of = {}
+    handler_binds = []
+
+    def walk(node, loops):
+        for ch in ast.iter_child_nodes(node):
+            if isinstance(ch, (ast.FunctionDef, ast.Lambda, ast.ClassDef)):
+                continue
+            if isinstance(ch, ast.stmt):
+                order[id(ch)] = len(order)
+                loops_of[id(ch)] = loops
+            if isinstance(ch, ast.ExceptHandler) and ch.name == y:
+                handler_binds.append(ch)
+            walk(ch, loops + (id(ch),) if isinstance(
+                ch, (ast.For, ast.While)) else loops)
+    walk(fn, ())
+    if id(copy_stmt) not in order or handler_binds:
+        return False
+    c = order[id(copy_stmt)]
+    cl = set(loops_of[id(copy_stmt)])
+
+    def stmt_of(node, target, cur):
+        for ch in ast.iter_child_nodes(node):
+            if isinstance(ch, (ast.FunctionDef, ast.Lambda, ast.ClassDef)):
+                continue
+            nxt = ch if isinstance(ch, ast.stmt) else cur
+            if ch is target:
+                return nxt
+            r = stmt_of(ch, target, nxt)
+            if r is not None:
+                return r
+        return None
+    for x in ast.walk(fn):
+        if isinstance(x, ast.Name) and x.id == y and isinstance(
+                x.ctx, (ast.Store, ast.Del)):
+            st = stmt_of(fn, x, None)
+            if st is None or id(st) not in order:
+                return False
+            if order[id(st)] >= c:
+                return False
+            lo = set(loops_of[id(st)])
+            if isinstance(st, (ast.For, ast.While)):
+                lo.add(id(st))
+            if lo & cl:
+                return False
+    # comprehension variables and nested scopes are not bindings of the
+    # function's local
+    return True
+
+
 def _inline_attr_aliases(tree):
     """``x = self._attr`` with x bound once and ``_attr`` only ever rebound in
     a constructor: reads of x are reads of the attribute (a maintainer's
@@ -377,6 +433,42 @@ def _inline_attr_aliases(tree):
                             y not in params and stores.get(y, 0) == 1 and
                             plain_once.get(y, 0) == 1 and y not in alias):
                         alias[n.targets[0].id] = (n, n.value)
+                    elif y not in alias and y != n.targets[0].id and \
+                            _stores_all_before(m, y, n):
+                        # y is rebound, but only before this copy is made
+                        alias[n.targets[0].id] = (n, n.value)
+            # ``x = 'rb'`` with x bound once: a named literal (an argument
+            # temporary of a mechanical inlining, a key held in a local)
+            for n in ast.walk(m):
+                if isinstance(n, ast.Assign) and len(n.targets) == 1 and \
+                        isinstance(n.targets[0], ast.Name) and isinstance(
+                            n.value, ast.Constant) and isinstance(
+                            n.value.value, (str, bytes, int, float)) and \
+                        not isinstance(n.value.value, bool) and \
+                        stores.get(n.targets[0].id) == 1 and \
+                        n.targets[0].id not in params and \
+                        n.targets[0].id not in alias:
+                    alias[n.targets[0].id] = (n, n.value)
+            # ``a, b = (x, y)`` element-wise (what is left of a helper that
+            # returned a pair)
+            for n in ast.walk(m):
+                if isinstance(n, ast.Assign) and len(n.targets) == 1 and \
+                        isinstance(n.targets[0], (ast.Tuple, ast.List)) and \
+                        isinstance(n.value, (ast.Tuple, ast.List)) and \
+                        len(n.targets[0].elts) == len(n.value.elts) and all(
+                            isinstance(t, ast.Name) and isinstance(
+                                v, ast.Name) and stores.get(t.id) == 1 and
+                            t.id not in params and t.id not in alias and
+                            t.id != v.id and (
+                                (v.id in params and
+                                 stores.get(v.id, 0) == 0) or
+                                (v.id not in params and
+                                 stores.get(v.id, 0) == 1 and
+                                 plain_once.get(v.id, 0) == 1))
+                            for t, v in zip(n.targets[0].elts,
+                                            n.value.elts)):
+                    for t, v in zip(n.targets[0].elts, n.value.elts):
+                        alias[t.id] = (n, v)
             if not alias:
                 continue
             # chains x = y, z = x resolve to the root
@@ -403,6 +495,76 @@ def _inline_attr_aliases(tree):
                 if r is not None:
                     new_body.append(r)
             m.body = new_body or [ast.Pass()]
+    ast.fix_missing_locations(tree)
+
+
+# class-level constants of the confirmed tree that the rules refer to by
+# name: a module-level constant of the same name (a class constant moved out
+# of its class) is not folded
+_NAMED_CONSTANTS = {'_CACHE_FILE_VERSION', '_OPERATION_VERSIONS', '_SOFTWARE',
+                    '_IS_WINDOWS', 'OPERATIONS'}
+
+
+def _fold_module_constants(tree):
+    """A module-level name bound once to a string/number literal and never
+    rebound is replaced by the literal where it is read (JSON key names and
+    type tags turned into named constants)."""
+    binds = {}
+    for st in tree.body:
+        if isinstance(st, ast.Assign) and len(st.targets) == 1 and \
+                isinstance(st.targets[0], ast.Name):
+            binds.setdefault(st.targets[0].id, []).append(st.value)
+    consts = {k: v[0] for k, v in binds.items()
+              if len(v) == 1 and isinstance(v[0], ast.Constant) and
+              isinstance(v[0].value, (str, int, float)) and
+              not isinstance(v[0].value, bool) and
+              k not in _NAMED_CONSTANTS and k.lstrip('_')[:1].isupper()}
+    if not consts:
+        return
+    for n in ast.walk(tree):
+        if isinstance(n, ast.Name) and isinstance(
+                n.ctx, (ast.Store, ast.Del)) and n.id in consts:
+            # rebound somewhere (other than its one module-level binding)
+            pass
+    stores = {}
+    for n in ast.walk(tree):
+        if isinstance(n, ast.Name) and isinstance(n.ctx, (ast.Store,
+                                                          ast.Del)):
+            stores[n.id] = stores.get(n.id, 0) + 1
+    consts = {k: v for k, v in consts.items() if stores.get(k) == 1}
+
+    class T(ast.NodeTransformer):
+        def visit_Name(self, n):
+            if isinstance(n.ctx, ast.Load) and n.id in consts:
+                return ast.copy_location(
+                    ast.Constant(value=consts[n.id].value), n)
+            return n
+    for f in ast.walk(tree):
+        if isinstance(f, ast.FunctionDef):
+            f.body = [T().visit(b) for b in f.body]
+    ast.fix_missing_locations(tree)
+
+
+def _normalise_del(tree):
+    """``del X[k]`` is ``X.pop(k)`` (same effect and same KeyError /
+    IndexError for a dict or a list); the rules know the method form."""
+    class T(ast.NodeTransformer):
+        def visit_Delete(self, n):
+            if len(n.targets) == 1 and isinstance(
+                    n.targets[0], ast.Subscript) and not isinstance(
+                        n.targets[0].slice, (ast.Slice, ast.Tuple)):
+                t = n.targets[0]
+                v = copy.deepcopy(t.value)
+                for x in ast.walk(v):
+                    if hasattr(x, 'ctx'):
+                        x.ctx = ast.Load()
+                k = copy.deepcopy(t.slice)
+                return ast.copy_location(ast.Expr(value=ast.Call(
+                    func=ast.Attribute(value=v, attr='pop',
+                                       ctx=ast.Load()),
+                    args=[k], keywords=[])), n)
+            return n
+    T().visit(tree)
     ast.fix_missing_locations(tree)
 
 
@@ -469,22 +631,45 @@ class Program:
                 raise AnalysisError('cannot parse %s: %s' % (p, e))
             self.modules[mod] = tree
             self.sources[mod] = src
+            self._relfile = getattr(self, '_relfile', {})
+            self._relfile[mod] = PKG + '/' + fn
             self._load_module(mod, tree, PKG + '/' + fn)
         self.excluded.append('samples/')
+        if anchors == 'default':
+            anchors = os.path.join(os.path.dirname(os.path.dirname(
+                os.path.abspath(__file__))), 'anchors.json')
+        canon = None
+        if anchors and os.path.exists(anchors):
+            canon = json.load(open(anchors))['functions']
+        self.deextracted = []
+        self._finish(canon)
+        if canon is not None:
+            # helpers that are new relative to the confirmed tree are folded
+            # back into their callers where that is a syntactic rewrite;
+            # then the model is rebuilt from the rewritten modules
+            from .deextract import deextract
+            rep = deextract(self.modules, set(canon),
+                            set(self.renamed.values()))
+            if rep:
+                self.deextracted = rep
+                self.classes, self.funcs, self.imports = {}, {}, {}
+                self.module_globals, self.module_funcs = {}, {}
+                self.renamed = {}
+                for mod, tree in self.modules.items():
+                    self._load_module(mod, tree, self._relfile[mod])
+                self._finish(canon)
+        self._infer()
+
+    def _finish(self, canon):
         self._parents = {}
         for f in self.funcs.values():
             for n in ast.walk(f.node):
                 for c in ast.iter_child_nodes(n):
                     self._parents[id(c)] = n
         self._check_supported()
-        if anchors == 'default':
-            anchors = os.path.join(os.path.dirname(os.path.dirname(
-                os.path.abspath(__file__))), 'anchors.json')
-        if anchors and os.path.exists(anchors):
-            canon = json.load(open(anchors))['functions']
+        if canon is not None:
             self._apply_attr_aliases(canon)
             self._apply_aliases(canon)
-        self._infer()
 
     # ------------------------------------------------------------------
     def _load_module(self, mod, tree, relfile):
@@ -494,6 +679,8 @@ class Program:
         _hoist_walrus(tree)
         _normalise_temporaries(tree)
         _inline_attr_aliases(tree)
+        _fold_module_constants(tree)
+        _normalise_del(tree)
         for st in tree.body:
             if isinstance(st, ast.Import):
                 for a in st.names:
@@ -996,7 +1183,13 @@ class Program:
         for n in ast.walk(f.node):
             if isinstance(n, ast.Assign):
                 for t in n.targets:
-                    out.append((t, n.value))
+                    if isinstance(t, (ast.Tuple, ast.List)) and isinstance(
+                            n.value, (ast.Tuple, ast.List)) and len(
+                                t.elts) == len(n.value.elts):
+                        for te, ve in zip(t.elts, n.value.elts):
+                            out.append((te, ve))
+                    else:
+                        out.append((t, n.value))
             elif isinstance(n, ast.AnnAssign) and n.value is not None:
                 out.append((n.target, n.value))
             elif isinstance(n, ast.With):
